@@ -76,13 +76,21 @@ fn evaluate(g: &Graph, ng: &lightning::routing::gossip::NetworkGraph<build::Nop>
 			if let (Err(e), false) = (&result, panicked) {
 				let path: Vec<String> =
 					f.edges.iter().map(|i| format!("{}:{}->{}", edges[*i].scid, edges[*i].from, edges[*i].to)).collect();
-				let class = format!(
-					"{}/{}/{}{}",
-					if validate::allowed_paths(q) == 1 { "single-path-search" } else { "multi-path-search" },
-					slug(e),
-					if f.min_lifted_by_fees { "a-minimum-is-met-only-through-later-fees" } else { "all-minimums-below-amount" },
-					if q.sat_pow != 0 { "/saturation-limit-set" } else { "" },
-				);
+				// Classification by features of the *input* (the most comfortable feasible path), so
+				// that each kind of search weakness has one stable identity.
+				let mode = if validate::allowed_paths(q) == 1 { "single-path-search" } else { "multi-path-search" };
+				let class = if f.min_lifted_by_fees {
+					"a-minimum-is-met-only-through-later-fees".to_string()
+				} else if f.exact_fit {
+					"exact-fit-within-rounding-margin-of-a-limit".to_string()
+				} else {
+					format!(
+						"slack/{}/{}/{}",
+						mode,
+						slug(e),
+						if q.scorer == Scorer::Fixed(0) { "zero-penalty-scorer" } else { "penalising-scorer" }
+					)
+				};
 				fired.push(Fired {
 					oracle: "completeness",
 					class,
